@@ -28,6 +28,10 @@ import (
 // packages incl. through includes, complex keys over a key record that is empty or has defaults); their witnesses stay
 // in gen_v1_test.go as regression cases.
 func (s *Schema) ForV1Manifest() []string {
+	// the root generator has no notion of custom typerefs (it generates every typeref): the mark is dropped
+	for _, n := range s.Types {
+		n.Custom = false
+	}
 	notes := s.distinctMovedNamesV1()
 	s.Reindex()
 	return notes
@@ -63,7 +67,9 @@ func (s *Schema) refsV1(n *Named) []Ident {
 	return out
 }
 
-func (s *Schema) distinctMovedNamesV1() []string {
+// mayBeMoved over-approximates the types a generator moves to conflictResolution (see ForV1Manifest): all types of a
+// namespace on a cycle of the namespace reference graph, closed under reachability.
+func (s *Schema) mayBeMoved() map[Ident]bool {
 	s.Reindex()
 	// namespace reference graph and its reachability relation
 	nsEdges := map[string]map[string]bool{}
@@ -113,6 +119,29 @@ func (s *Schema) distinctMovedNamesV1() []string {
 		if onCycle[n.Namespace] {
 			mark(n.Ident)
 		}
+	}
+	return moved
+}
+
+// KeepCustomTyperefsInPlace clears the custom mark of every typeref that may be moved to conflictResolution (v2 grammar,
+// applied after the draw). A custom typeref is implemented by a hand-written file in its own package; the generator
+// nevertheless moves it like any other type a cyclic type reaches and the bindings then refer to a type that does not
+// exist in conflictResolution: the open finding KF-C12-custom-typeref-moved (witness in gen_v2_test.go).
+func (s *Schema) KeepCustomTyperefsInPlace() (cleared int) {
+	moved := s.mayBeMoved()
+	for _, n := range s.Types {
+		if n.Kind == "typeref" && n.Custom && moved[n.Ident] {
+			n.Custom = false
+			cleared++
+		}
+	}
+	return cleared
+}
+
+func (s *Schema) distinctMovedNamesV1() []string {
+	moved := s.mayBeMoved()
+	if len(moved) == 0 {
+		return nil
 	}
 	// the later declared of two such types with the same short name gets a fresh one
 	shortTaken := map[string]bool{}
